@@ -48,14 +48,11 @@ _SCOPES = (ast.FunctionDef, ast.AsyncFunctionDef, ast.Lambda, ast.ClassDef)
 
 
 def walk_scope(owner):
-    """all nodes of the body of a function / class / module, not entering nested scopes"""
-    todo = list(ast.iter_child_nodes(owner))
-    while todo:
-        n = todo.pop()
-        yield n
-        if isinstance(n, _SCOPES):
-            continue
-        todo.extend(ast.iter_child_nodes(n))
+    """all nodes of the body of a function / class / module in source order, not entering nested scopes"""
+    for c in ast.iter_child_nodes(owner):
+        yield c
+        if not isinstance(c, _SCOPES):
+            yield from walk_scope(c)
 
 
 def walk_in_order(node):
@@ -147,6 +144,13 @@ class Scope:
         """value node of the only binding `name = value` in owner's own scope, else None"""
         b = self.binds(owner).get(name)
         if b and len(b) == 1 and b[0][0] == "assign":
+            return b[0][1]
+        return None
+
+    def accumulator_init(self, owner, name):
+        """value node of `name = value` when every later binding of name is an augmented assignment"""
+        b = self.binds(owner).get(name)
+        if b and b[0][0] == "assign" and all(k == "aug" for k, _ in b[1:]):
             return b[0][1]
         return None
 
@@ -686,7 +690,7 @@ class Templates:
                     yield from fields(p.spec)
 
         def visit(n):
-            if isinstance(n, ast.expr) and not isinstance(n, (ast.Constant, ast.Name)):
+            if isinstance(n, ast.expr) and not isinstance(n, (ast.Constant, ast.Name, ast.Attribute)):
                 t = self.tmpl(n)
                 if t is not None:
                     if id(n) not in seen:
